@@ -14,6 +14,8 @@ import (
 
 	exocoreapp "github.com/ExocoreNetwork/exocore/app"
 	keytypes "github.com/ExocoreNetwork/exocore/types/keys"
+	avstypes "github.com/ExocoreNetwork/exocore/x/avs/types"
+	epochstypes "github.com/ExocoreNetwork/exocore/x/epochs/types"
 	operatortypes "github.com/ExocoreNetwork/exocore/x/operator/types"
 	"github.com/ExocoreNetwork/exocore/x/oracle"
 	tmproto "github.com/cometbft/cometbft/proto/tendermint/types"
@@ -82,6 +84,7 @@ func c18Judge(m *Machine, after []int) *Violation {
 	s1 := c1.Snap(c1.CommittedCtx(), c18Modules...)
 	c18StaleReverseLookup = makeStaleReverseLookup(c1)
 	c18ValsetKeyReplacement = makeValsetKeyReplacement(c1)
+	c18UnexportedAVS = makeUnexportedAVS(m)
 	c18ValsetExcluded = false
 	var allStoreViolations *Violation
 	for _, mod := range c18Modules {
@@ -118,7 +121,7 @@ func c18Judge(m *Machine, after []int) *Violation {
 			}
 		}
 	}
-	if allStoreViolations != nil {
+	if allStoreViolations != nil && allStoreViolations.Msg != "" && !c18NoExclusions {
 		return allStoreViolations
 	}
 	// (c) exporting again yields the same document
@@ -127,12 +130,16 @@ func c18Judge(m *Machine, after []int) *Violation {
 			continue // listed finding: the validator list is exported with other keys, in another order
 		}
 		if string(state1[mod]) != string(state2[mod]) {
-			return violation("C18.I3.reexport."+mod, "second export of %s differs from the first: %s", mod, firstJSONDiff(state1[mod], state2[mod]))
+			v := violation("C18.I3.reexport."+mod, "second export of %s differs from the first: %s", mod, firstJSONDiff(state1[mod], state2[mod]))
+			if !c18NoExclusions {
+				return v
+			}
+			allStoreViolations = mergeViolation(allStoreViolations, v)
 		}
 	}
 	_ = mem1
 	if c18ValsetExcluded {
-		return nil
+		return allStoreViolations
 	}
 	// (d) both chains behave alike afterwards. Only one application can be live per process
 	// (oracle singletons), so the original chain is replayed block by block with a restart-like
@@ -181,23 +188,46 @@ func c18Judge(m *Machine, after []int) *Violation {
 		}
 		if obs1[i].halted != "" || obs2[i].halted != "" {
 			if obs1[i].halted != obs2[i].halted {
-				return violation("C18.I4.behaviour", "block %d after the export: halted %q vs %q", i+1, obs1[i].halted, obs2[i].halted)
+				return mergeViolation(allStoreViolations, violation("C18.I4.behaviour", "block %d after the export: halted %q vs %q", i+1, obs1[i].halted, obs2[i].halted))
 			}
 			break
 		}
 		if obs1[i].updates != obs2[i].updates {
-			return violation("C18.I4.behaviour.validator-updates", "block %d after the export (height %d): the original chain returns validator updates %s, the re-imported chain %s", i+1, exp.Height+int64(i), obs1[i].updates, obs2[i].updates)
+			return mergeViolation(allStoreViolations, violation("C18.I4.behaviour.validator-updates", "block %d after the export (height %d): the original chain returns validator updates %s, the re-imported chain %s", i+1, exp.Height+int64(i), obs1[i].updates, obs2[i].updates))
 		}
 		for _, mod := range c18Modules {
 			for _, e := range sim.Diff(sim.Snapshot{mod: obs1[i].snap[mod]}, sim.Snapshot{mod: obs2[i].snap[mod]}) {
 				if name := c18KeyKnown(mod, e); name != "" && !c18NoExclusions {
+					st := getStats("C18")
+					statsMu.Lock()
+					st.Excluded[name]++
+					statsMu.Unlock()
 					continue
 				}
-				return violation("C18.I4.behaviour."+mod, "block %d after the export (height %d): original and re-imported chain differ: %s", i+1, exp.Height+int64(i), e.String())
+				v := violation("C18.I4.behaviour."+mod, "block %d after the export (height %d): original and re-imported chain differ: %s", i+1, exp.Height+int64(i), e.String())
+				if !c18NoExclusions {
+					return v
+				}
+				// re-running the saved input of a listed finding: report every differing module once
+				if allStoreViolations == nil || !strings.Contains(allStoreViolations.Error(), "C18.I4.behaviour."+mod) {
+					allStoreViolations = mergeViolation(allStoreViolations, v)
+				}
+				break
 			}
 		}
 	}
-	return nil
+	return allStoreViolations
+}
+
+// mergeViolation appends v to the violations collected so far (re-runs of saved inputs of listed
+// findings report everything they see; a search run returns at the first violation, where
+// acc is nil).
+func mergeViolation(acc, v *Violation) *Violation {
+	if acc == nil {
+		return v
+	}
+	acc.Msg += "\n" + v.Error()
+	return acc
 }
 
 // exportListed exports the listed modules through their own ExportGenesis, on any context (the
@@ -303,11 +333,49 @@ func init() {
 		MaxSteps:   90,
 		Invariants: func() []Invariant { return nil },
 	})
+	wa := map[string]int{}
+	for k, v := range w {
+		wa[k] = v
+	}
+	for k, v := range map[string]int{"avsRegister": 6, "avsOptIn": 9, "avsOptOut": 2, "avsUpdate": 2, "price": 8} {
+		wa[k] = v
+	}
+	registerWorldProp(&WorldProp{
+		ID: "C18", Name: "C18AVS",
+		Config: func(t *rapid.T) sim.Config {
+			cfg := determinismConfig(t)
+			cfg.NumAVS = 1 + uniform(t, 2, "nAVS18")
+			cfg.ExtraEpochs = []epochstypes.EpochInfo{epochstypes.NewGenesisEpochInfo("fast", 20*time.Second)}
+			return cfg
+		},
+		Gen:        GenOpts{Weights: wa, HostilePct: 4, ExtremePct: 0, Anchor: true, Tempos: []int{4, 15, 40}, CapBits: 40, ClampBits: 40, Dynamic: avs18Dynamic},
+		MinSteps:   20,
+		MaxSteps:   90,
+		Invariants: func() []Invariant { return nil },
+	})
 }
 
-func TestC18(t *testing.T) {
+// avs18Dynamic: register an AVS early so that the export sees opted-in operators
+func avs18Dynamic(m *Machine, w map[string]int) map[string]int {
+	out := map[string]int{}
+	for k, v := range w {
+		out[k] = v
+	}
+	if len(m.avsView().avs) == 0 {
+		out["avsRegister"] *= 5
+	}
+	return out
+}
+
+func TestC18(t *testing.T) { runC18(t, "C18", "TestC18") }
+
+// the same round trip over histories with further AVSs registered through the precompile and
+// operators opted into them (the states of C05's histories)
+func TestC18AVS(t *testing.T) { runC18(t, "C18AVS", "TestC18AVS") }
+
+func runC18(t *testing.T, propName, testName string) {
 	const prop = "C18"
-	p := worldProps[prop]
+	p := worldProps[propName]
 	defer finish(t, prop)
 	st := getStats(prop)
 	st.Rule = "rapid-generated histories (restaking, key management, oracle rounds, fees) are stopped at an arbitrary height; the exported genesis of assets, delegation, operator, dogfood, epochs, oracle, exomint and feedistribution must validate, a fresh chain initialised from it must have byte-identical stores for these modules, export again the same document, and behave identically over the following blocks (store digests and validator updates per block until queues drain); " +
@@ -356,7 +424,7 @@ func TestC18(t *testing.T) {
 		n := rapid.IntRange(p.MinSteps, p.MaxSteps).Draw(rt, "steps")
 		g := p.Gen
 		g.MaxDt = g.Tempos[uniform(rt, len(g.Tempos), "tempo")]
-		cf := &CaseFile{Property: prop, Config: cfg, Test: "TestC18"}
+		cf := &CaseFile{Property: prop, Config: cfg, Test: testName}
 		lastCase = cf
 		m := recordHistory(rt, p, cfg, func(m *Machine, i int) (Action, bool) {
 			if i >= n {
@@ -399,6 +467,13 @@ func TestC18(t *testing.T) {
 				}
 			}
 		}
+		regAVS, optedAVS := 0, 0
+		for _, a := range m.avsView().avs {
+			regAVS++
+			if ops, err := m.C.App.OperatorKeeper.GetOptedInOperatorListByAVS(m.C.Ctx(), a.AvsAddress); err == nil {
+				optedAVS += len(ops)
+			}
+		}
 		if v := c18Judge(m, after); v != nil {
 			// the listed findings are excluded key by key inside the judge: whatever it still
 			// reports is not one of them
@@ -415,6 +490,12 @@ func TestC18(t *testing.T) {
 		}
 		if openRound {
 			st.Labels["export-with-open-oracle-round"]++
+		}
+		if regAVS > 0 {
+			st.Labels["export-with-avs-registered-through-precompile"]++
+		}
+		if optedAVS > 0 {
+			st.Labels["export-with-operator-opted-into-registered-avs"]++
 		}
 		if b2i(pendingHold)+b2i(pendingQueue)+b2i(openRound) >= 2 {
 			st.NonTrivial[shapeOf(m)] = true
@@ -433,11 +514,13 @@ var c18NoExclusions bool
 // c18KeyKnown: does a differing store key belong to a listed finding that still reproduces?
 func c18KeyKnown(mod string, e sim.DiffEntry) string {
 	for name, match := range knownMatch["C18"] {
-		if !strings.HasPrefix(name, "C18.I2.store."+mod+"/") || match == "" {
+		if !(strings.HasPrefix(name, "C18.I2.store."+mod+"/") || strings.HasPrefix(name, "C18.I4.behaviour."+mod+"/")) || match == "" {
 			continue
 		}
 		switch {
 		case match == "*", match == "fn:staleReverseLookup" && c18StaleReverseLookup != nil && c18StaleReverseLookup(e):
+			return name
+		case match == "fn:unexportedAVS" && c18UnexportedAVS != nil && c18UnexportedAVS(e):
 			return name
 		case match == "fn:valsetKeyReplacement" && c18ValsetKeyReplacement != nil && c18ValsetKeyReplacement(e):
 			c18ValsetExcluded = true
@@ -447,6 +530,34 @@ func c18KeyKnown(mod string, e sim.DiffEntry) string {
 		}
 	}
 	return ""
+}
+
+// c18UnexportedAVS is set by c18Judge for the chain under judgement: does the differing key of the
+// operator store carry the address of an AVS that was registered through the precompile (the
+// AVS module exports nothing, so such an AVS does not exist on the re-imported chain)?
+var c18UnexportedAVS func(e sim.DiffEntry) bool
+
+func makeUnexportedAVS(m *Machine) func(e sim.DiffEntry) bool {
+	var addrs []string
+	m.C.App.AVSManagerKeeper.IterateAVSInfo(m.C.CommittedCtx(), func(_ int64, info avstypes.AVSInfo) bool {
+		if strings.ToLower(info.AvsAddress) != m.W.AvsAddr {
+			addrs = append(addrs, strings.ToLower(info.AvsAddress))
+		}
+		return false
+	})
+	// AVSs that were registered and deregistered again leave operator records behind as well
+	for _, k := range m.W.AVSKeys {
+		addrs = append(addrs, strings.ToLower(k.Addr.Hex()))
+	}
+	return func(e sim.DiffEntry) bool {
+		key := strings.ToLower(string(e.Key))
+		for _, a := range addrs {
+			if strings.Contains(key, a) {
+				return true
+			}
+		}
+		return false
+	}
 }
 
 // c18ValsetKeyReplacement is set by c18Judge for the chain under judgement: is the differing key
